@@ -3,6 +3,7 @@ package p2j
 import (
 	"context"
 	"fmt"
+	"math"
 	"strconv"
 
 	"github.com/cloudwego/dynamicgo/http"
@@ -190,11 +191,17 @@ func (self *BinaryConv) unmarshalSingular(ctx context.Context, resp http.Respons
 		if e != nil {
 			return wrapError(meta.ErrRead, "unmarshal Floatkind error", e)
 		}
+		if math.IsNaN(float64(v)) || math.IsInf(float64(v), 0) {
+			return wrapError(meta.ErrConvert, "NaN or Inf can not be represented in JSON", nil)
+		}
 		*out = json.EncodeFloat64(*out, float64(v))
 	case proto.DOUBLE:
 		v, e := p.ReadDouble()
 		if e != nil {
 			return wrapError(meta.ErrRead, "unmarshal Doublekind error", e)
+		}
+		if math.IsNaN(v) || math.IsInf(v, 0) {
+			return wrapError(meta.ErrConvert, "NaN or Inf can not be represented in JSON", nil)
 		}
 		*out = json.EncodeFloat64(*out, float64(v))
 	case proto.STRING:
